@@ -1,0 +1,17 @@
+//go:build verif
+
+// Machine-checked contracts for package zjson (comment-only; compiled only with -tags verif).
+package zjson
+
+// Decode returns a provider factory over exactly the given reader.
+//@ func Decode(r)
+//@   pure
+//@   ensures[C15,C14] factory_over_the_given_reader: result != nil && isclo(result, "zjson.Decode$1") && *captured(result, "zjson.Decode$1", 0) == r
+
+// The factory: a document that does not decode to a JSON object is reported as ONE invalid_json issue and no
+// provider; an object becomes a provider that reads json tags ({} becomes the nil provider = the empty record).
+//@ func Decode$1()
+//@   implements functype DpFactory
+//@   modifies srctag
+//@   ensures[C15] undecodable_is_one_invalid_json_issue: result1 != nil ==> result0 == nil && isnew(result1) && result1.Code == "invalid_json" && result1.Err != nil
+//@   ensures[C15,C14] object_reads_json_tags: result1 == nil && result0 != nil ==> p.dptag(result0) == &jsonTag
